@@ -124,7 +124,7 @@ pub fn check_c07_evo(c: &EvoSuffixCase, acc: &mut Acc, record: bool) -> Verdict 
 }
 
 pub fn run_c07(cx: &Cx) -> PropResult {
-    let per_shard = cx.n(6_000, 200_000);
+    let per_shard = cx.n(20_000, 500_000);
     let acc = parallel(cx, &|shard, acc| {
         let strat = suffix_case_strategy(3);
         if drive(crate::run::tag_seed(derive_seed(cx.seed, cx.prop, shard as u64, 0), 0), &strat, per_shard, acc, &|c: &SuffixCase| to_json(&json!({"Plain": c})), &mut |c, a, r| check_c07(c, a, r)) {
@@ -539,7 +539,7 @@ pub fn check_c12(c: &ContCase, acc: &mut Acc, record: bool) -> Verdict {
 }
 
 pub fn run_c12(cx: &Cx) -> PropResult {
-    let per_shard = cx.n(6_000, 250_000);
+    let per_shard = cx.n(100_000, 2_000_000);
     let acc = parallel(cx, &|shard, acc| {
         let strat = cont_case_strategy();
         drive(crate::run::tag_seed(derive_seed(cx.seed, cx.prop, shard as u64, 0), 0), &strat, per_shard, acc, &|c: &ContCase| to_json(c), &mut |c, a, r| check_c12(c, a, r));
